@@ -360,6 +360,62 @@ def fold_consts(term):
     return term
 
 
+def _text_parts(tm):
+    """Parts of a text-building term in f-string form, or None when `tm` is not known to be text."""
+    if tm[0] == "fstr":
+        return list(tm[1])
+    if tm[0] == "const" and isinstance(tm[1], str):
+        return [tm]
+    if tm[0] == "call" and tm[1] == ("ref", "builtins.str") and len(tm[2]) == 1 and not tm[3]:
+        return [("fmt", tm[2][0], -1, None)]
+    return None
+
+
+def concat_text(left, right):
+    """`"P" + d + "T" + t` and `str(p) + s` are the f-strings f"P{d}T{t}" / f"{p}{s}" (for text operands)."""
+    lp, rp = _text_parts(left), _text_parts(right)
+    if lp is None and rp is None:
+        return None
+    if lp is None:
+        lp = [("fmt", left, -1, None)]
+    if rp is None:
+        rp = [("fmt", right, -1, None)]
+    parts = []
+    for x in lp + rp:
+        if parts and parts[-1][0] == "const" and x[0] == "const":
+            parts[-1] = ("const", parts[-1][1] + x[1])
+        else:
+            parts.append(x)
+    return ("fstr", tuple(parts))
+
+
+def format_to_fstr(fmt: str, args: tuple):
+    import string
+
+    parts = []
+    auto = 0
+    try:
+        for lit, field, spec, conv in string.Formatter().parse(fmt):
+            if lit:
+                parts.append(("const", lit))
+            if field is None:
+                continue
+            if field == "":
+                idx = auto
+                auto += 1
+            elif field.isdigit():
+                idx = int(field)
+            else:
+                return None
+            if idx >= len(args) or (spec and ("{" in spec)):
+                return None
+            convn = -1 if conv is None else ord(conv)
+            parts.append(("fmt", args[idx], convn, ("fstr", (("const", spec),)) if spec else None))
+    except ValueError:
+        return None
+    return ("fstr", tuple(parts))
+
+
 def merge_class_tests(term):
     """`isinstance(x, A) or isinstance(x, B)` is the same test as `isinstance(x, (A, B))` (same for issubclass): adjacent
     disjuncts on one subject are merged so that rules see one canonical spelling."""
